@@ -237,8 +237,11 @@ def record_canon(ptn, obj, cls, op, mode, tn=0, td=1, want_exact=True):
 def poke(obj, rng, tr, how=None):
     """a user modification of one site tensor between two calls on the same object (keeps the sparsity pattern and the charges)"""
     i = int(rng.integers(len(obj.A)))
-    how = how or str(rng.choice(['assign', 'inplace', 'assign_all']))
-    if how == 'assign':
+    how = how or str(rng.choice(['assign', 'inplace', 'assign_all', 'nearly']))
+    if how == 'nearly':
+        # leaves an (already canonical) object nearly but not exactly canonical: a norm drift of a few 1e-6 and noise of 1e-9
+        obj.A[i] = obj.A[i] * (1.0 + 3e-6) + 2e-9 * np.where(obj.A[i] != 0, rng.normal(size=obj.A[i].shape), 0.0)
+    elif how == 'assign':
         obj.A[i] = obj.A[i] * rng.integers(1, 4, size=obj.A[i].shape)
     elif how == 'inplace':
         obj.A[i] *= 3
